@@ -330,6 +330,7 @@ def check(ctx: t.Any, prop: str, roles: t.Sequence[str], k: int) -> None:
         if "CAP" in res.levels:
             ctx.note(f"tla_{role}_INCOMPLETE", f"product state cap {STATE_CAP} reached: the real object has more states than the model bound allows; covered levels {res.levels}")
             ctx.exhaustive = False
+            print(f"INCOMPLETE: model/code product for the {role} stopped at the state cap ({res.states} states); see evidence")
         elif res.unexercised and not res.violations:
             # the model has an edge the code never reached although every step agreed: the binding is broken
             ctx.violation(f"model-edge-unreachable:{role}", f"{len(res.unexercised)} model edges were never reached by the real {role}, e.g. {res.unexercised[0]}", {"role": role, "K": k, "tla": True, "history": []}, len(res.unexercised))
